@@ -844,3 +844,49 @@ compute_weights_norm = FunctionContract(
 )
 CONTRACTS.append(compute_weights_norm)
 LEMMAS.append(L_row_pos)
+
+
+# ------------------------------------------------------------------ _parse_interaction_parameters: the parameters of an interaction line
+ParamT = TKey('ParamT')                                     # a parameter as stored: the token itself, or a parameter effector object
+
+
+def setup_pip(cx):
+    from pyvc.values import COERCIONS
+    eng = cx.eng
+    tokens = cx.val('tokens', TSeq(TStr))
+    plain = cx.uf('plain', [TStr], ParamT)                   # a token stored as it is
+    COERCIONS[('Str', 'ParamT')] = lambda e: plain(e)
+    known = cx.uf('known_effector', [TStr], TBool)           # name in PARAMETER_EFFECTORS
+    made = cx.uf('effector', [TStr, TSeq(TStr), TOpt(TStr)], ParamT)
+
+    def lookup(e, name):
+        ne = to_z3(name, TStr)
+        e.maybe_raise(known(ne), 'KeyError')
+
+        def construct(e2, params, format_spec=None):
+            return SV(ParamT, made(ne, to_z3(params, TSeq(TStr)), to_z3(format_spec, TOpt(TStr))))
+        return Builtin(construct, 'effector class')
+    cx.spec_env['PARAMETER_EFFECTORS'] = Obj('PARAMETER_EFFECTORS', __getitem__=Builtin(lookup, 'PARAMETER_EFFECTORS[]'))
+    return dict(tokens=tokens)
+
+
+SPEC_PIP = {
+    'is_eff': "lambda t: '(' in t and not t.startswith('(') and t.endswith(')')",
+}
+parse_parameters = FunctionContract(
+    F, '_parse_interaction_parameters', 'C13', setup=setup_pip, spec_defs=SPEC_PIP, spec_env=dict(ParamT=ParamT),
+    locals=dict(parameters=TSeq(ParamT)), result_ty=TSeq(ParamT),
+    allow_exc=('ValueError',),           # a parameter effector written with more than one '|': the two-way unpacking fails
+    ensures=[
+        # one parameter per token, in order; a token that is not written as a parameter effector - name(...) - is stored unchanged
+        "len(result) == len(tokens)",
+        "forall(lambda j: implies(0 <= j and j < len(tokens) and not is_eff(tokens[j]), result[j] == plain(tokens[j])))",
+    ],
+    # an effector name that is not known: IOError
+    raises={'OSError': ["exists(lambda j: 0 <= j and j < len(tokens) and is_eff(tokens[j]))"]},
+    loops={'L1': LoopSpec(inv=["len(parameters) == _i",
+                               "forall(lambda j: implies(0 <= j and j < _i and not is_eff(tokens[j]), parameters[j] == plain(tokens[j])))"],
+                          modifies=['parameters'])},
+    canary=[("            parameter = token\n", "            parameter = token.strip('0')\n"), ("for token in tokens:", "for token in tokens[1:]:")],
+)
+CONTRACTS.append(parse_parameters)
